@@ -326,9 +326,12 @@ func c16RunInner(p c16Plan) *common.Fail {
 				var out [][]byte
 				buf := make([]byte, 65536)
 				for len(out) < len(vals) {
-					n, _, err := pc.ReadFromUDP(buf)
+					n, from, err := pc.ReadFromUDP(buf)
 					if err != nil {
 						return out, common.Failf("peer-read", "udp peer: after %d of %d datagrams: %v", len(out), len(vals), err)
+					}
+					if la, ok := sock.LocalAddr().(*net.UDPAddr); ok && from.Port != la.Port {
+						continue // a stray datagram of another process (ephemeral ports are recycled between parallel shards)
 					}
 					out = append(out, append([]byte{}, buf[:n]...))
 				}
